@@ -243,7 +243,9 @@ func (c05Stream) Impl(c Case) string {
 	started.Add(n)
 	var wmu sync.Mutex
 	wrote := map[int64]int{} // message id -> successful writes (entries)
-	payload := strings.Repeat("x", size)
+	// every writer has a payload of its own (one letter, repeated): bytes of another writer's frame inside a frame
+	// that parses well are still a torn frame
+	payloadOf := func(id int64) string { return strings.Repeat(string(rune('a'+id%26)), size) }
 	_ = mux.ExtendedOperation(startTLSHandler(srvTLS, 0, 0), gldap.ExtendedOperationStartTLS)
 	_ = mux.Search(func(w *gldap.ResponseWriter, r *gldap.Request) {
 		m, err := r.GetSearchMessage()
@@ -255,7 +257,7 @@ func (c05Stream) Impl(c Case) string {
 			started.Wait() // rendezvous: all writers are alive before anyone writes
 		}
 		for i := 0; i < k; i++ {
-			e := r.NewSearchResponseEntry(fmt.Sprintf("w%d-%d", m.GetID(), i), gldap.WithAttributes(map[string][]string{"p": {payload}}))
+			e := r.NewSearchResponseEntry(fmt.Sprintf("w%d-%d", m.GetID(), i), gldap.WithAttributes(map[string][]string{"p": {payloadOf(m.GetID())}}))
 			if err := w.Write(e); err == nil {
 				wmu.Lock()
 				wrote[m.GetID()]++
@@ -338,7 +340,7 @@ func (c05Stream) Impl(c Case) string {
 				var dn string
 				fmt.Sscanf(v, "entry id=%d dn=%s", &id, &dn)
 				want := hx([]byte(fmt.Sprintf("w%d-%d", id, next[id])))
-				if dn != want || !strings.Contains(v, hx([]byte(payload))) {
+				if dn != want || !strings.Contains(v, "70:"+hx([]byte(payloadOf(id)))+"]") {
 					verdict = fmt.Sprintf("writer %d: frame out of order, duplicated, torn or foreign after a write timeout: dn=%s want %s", id, dn, want)
 					break
 				}
@@ -413,8 +415,8 @@ func (c05Stream) Impl(c Case) string {
 				verdict = fmt.Sprintf("writer %d: frame out of order, duplicated or foreign: dn=%s want %s", id, dn, want)
 				break
 			}
-			if !strings.Contains(v, hx([]byte(payload))) {
-				verdict = fmt.Sprintf("writer %d: payload torn", id)
+			if !strings.Contains(v, "70:"+hx([]byte(payloadOf(id)))+"]") {
+				verdict = fmt.Sprintf("writer %d: payload torn or foreign", id)
 				break
 			}
 			next[id]++
